@@ -385,6 +385,12 @@ Proof.
     assert (Hnd2 : nodup_str (map cd_name (map (create_coldef ks) cols)) = true).
     { rewrite map_map. rewrite (map_ext (fun x => cd_name (create_coldef ks x)) c_name) by (intro; reflexivity). exact Hndc. }
     rewrite Hnd2. cbn [negb].
+    assert (Hspec : forallb auto_spec_ok (map (create_coldef ks) cols) = true).
+    { apply forallb_forall. intros d Hd. apply in_map_iff in Hd. destruct Hd as [x [Hx _]]. subst d.
+      unfold auto_spec_ok, create_coldef, with_pk_auto, sea_coldef. cbn [cd_auto cd_type].
+      destruct (mem_str (c_name x) (auto_increment_columns ks)); [|reflexivity]. cbn [andb].
+      destruct (supports_auto_increment (c_type x)) eqn:Es; [|reflexivity]. rewrite (supports_auto_type_ok _ Es). reflexivity. }
+    rewrite Hspec. cbn [negb].
     assert (Hip : filter cd_pk (map (create_coldef ks) cols) = []).
     { apply filter_none. intros x Hx. apply in_map_iff in Hx. destruct Hx as [c [Hc Ic]]. subst x.
       rewrite forallb_forall in Hinl. apply Bool.negb_true_iff. apply Hinl. exact Ic. }
